@@ -46,11 +46,14 @@ package armor
 //@   ensures#type e != io.EOF ==> typeis(e, "*filippo.io/age/armor.Error")                                                          [C08 C14]
 //@   ensures#eof err == io.EOF <==> e == io.EOF                                                                                     [C08 C13]
 //@   ensures#wrap err != io.EOF ==> cast(e, "filippo.io/age/armor.Error").err == err                                                 [C08]
+//@   ensures#chain wraps(e, err)                                                                                                    [C13 C14]
 //@   modifies r.err
 
 //@ func (*armoredReader).Read$1() (line, err)
 //@   requires r.r != nil
 //@   ensures#err err != nil ==> len(line) == 0 && err != io.EOF                                                                      [C08 C13]
+//@   ensures#srcerr (lasterr("ReadBytes",1) != nil && lasterr("ReadBytes",1) != io.EOF) ==> err == lasterr("ReadBytes",1)              [C13]
+//@   ensures#trunc (lasterr("ReadBytes",1) == io.EOF && len(lastret("ReadBytes",1,0)) == 0) ==> err == io.ErrUnexpectedEOF              [C08 C13]
 //@   ensures#progress err == nil ==> len(r.r.$rem) < len(old(r.r.$rem))                                                             [C08 C14]
 //@   ensures#suffix issuffix(r.r.$rem, old(r.r.$rem)) && len(r.r.$rem) <= len(old(r.r.$rem))
 //@   ensures#len err == nil ==> len(line) <= len(old(r.r.$rem)) - len(r.r.$rem)
@@ -69,6 +72,7 @@ package armor
 //@   requires arinv(r) && disjoint(p, r.buf)
 //@   loop 1 invariant arinv(r) && r.err == nil && len(r.unread) == 0 && 0 <= removedWhitespace && removedWhitespace <= 1024 && issuffix(r.r.$rem, old(r.r.$rem)) && old(r.err) == nil && len(old(r.unread)) == 0
 //@   loop 1 invariant#wsbound r.started || len(old(r.r.$rem)) - len(r.r.$rem) <= 2 * removedWhitespace                              [C08 C14]
+//@   loop 1 invariant#noerr lasterr("Read$1",1) == nil
 //@   loop 1 invariant#begin (r.started && !old(r.started)) ==> lastbytes("Read$1",1,0) == "-----BEGIN AGE ENCRYPTED FILE-----"   [C05 C08]
 //@   loop 1 decreases len(r.r.$rem) + (r.started ? 0 : 1)
 //@   ensures#inv arinv(r)
@@ -86,6 +90,9 @@ package armor
 //@   call Decode#1 requires same(arg2, lastret("Read$1",2,0)) && rg(arg1) == rg(r.buf) && off(arg1) == 0                              [C01 C08]
 //@   call Read$2#1 requires lastbytes("Read$1",2,0) == "-----END AGE ENCRYPTED FILE-----"                                       [C05 C08]
 //@   call Read$2#2 requires lastbytes("Read$1",3,0) == "-----END AGE ENCRYPTED FILE-----"                                       [C05 C08]
+//@   ensures#srcerr1 lasterr("Read$1",1) != nil ==> err != nil && wraps(err, lasterr("Read$1",1))                                    [C13 C14]
+//@   ensures#srcerr2 lasterr("Read$1",2) != nil ==> err != nil && wraps(err, lasterr("Read$1",2))                                    [C13 C14]
+//@   ensures#srcerr3 lasterr("Read$1",3) != nil ==> err != nil && wraps(err, lasterr("Read$1",3))                                    [C13 C14]
 //@   ensures#begin (r.started && !old(r.started)) ==> lastbytes("Read$1",1,0) == "-----BEGIN AGE ENCRYPTED FILE-----"           [C05 C08]
 //@   ensures#data (len(old(r.unread)) == 0 && old(r.err) == nil && err == nil) ==> sub(bytes(p), 0, n) == sub(stdb64dec(lastbytes("Read$1",2,0)), 0, n) && bytes(r.unread) == sub(stdb64dec(lastbytes("Read$1",2,0)), n, n + len(r.unread)) && n + len(r.unread) == len(stdb64dec(lastbytes("Read$1",2,0)))   [C01 C08 C12]
 //@   modifies r.started, r.unread, r.buf, r.err, r.r.$rem, r.r.$bufd, r.r.$under.$rem, p[:]
